@@ -196,10 +196,15 @@ def run(ctx):
         f = P.fns.get(key)
         if f and f.has_body:
             v = FnView.get(P, f)
-            oks = ok_values(f, v)
+            # (read without inlining: the decoders are recognised as calls, however short their bodies are)
+            flat = TermCx(P, f, inline=False)
+            oks = [flat.operand(rv["ops"][0]) for (b, k, rv) in ret_writes(f) if k == "ok"]
             good = len(oks) == 1
             if good:
-                R, z = get_field(oks[0], "R"), get_field(oks[0], "z")
+                if is_call(oks[0], name="new") and len(oks[0][2]) == 2 and "Signature" in oks[0][1]:
+                    R, z = oks[0][2]                 # Signature::new(R, z)
+                else:
+                    R, z = get_field(oks[0], "R"), get_field(oks[0], "z")
                 dec = lambda t, tr: t[0] == "ok" and is_call(t[1], name="deserialize") and (t[1][1].endswith("::" + tr + "::deserialize")) and mentions(t[1], arg(1))
                 good = dec(R, "Group") and dec(z, "Field")
             ctx.check(good, "PROV", key, "R-and-z-through-checked-decoders",
